@@ -389,7 +389,7 @@ def execute(scenario, chooser):
     return res
 
 
-def _first_match(pattern_text, start_dt, t_from, horizon=4000.0):
+def _first_match(pattern_text, start_dt, t_from, horizon=180000.0):
     """First virtual instant >= t_from at which the wall clock matches."""
     from bardolph.lib.time_pattern import TimePattern
     pat = TimePattern.from_string(pattern_text)
